@@ -241,7 +241,7 @@ func (w *World) outcome() runner.Outcome {
 func (w *World) nonTrivial() bool {
 	switch w.prop {
 	case "C01":
-		return w.probes["leftover-stitched"] > 0 || w.probes["data+FIN-in-one-arrival"] > 0
+		return w.probes["leftover-present"] > 0 || w.probes["partial-consumption"] > 0 || w.probes["data+FIN-in-one-arrival"] > 0
 	case "C02":
 		return w.probes["write-EAGAIN"]+w.probes["write-short"] > 0
 	case "C03":
